@@ -4,3 +4,5 @@ import SMV.Elab
 import SMV.IR
 import SMV.Codegen
 import SMV.Render
+import SMV.Exec
+import SMV.Driver
